@@ -224,7 +224,7 @@ def _unquote(v: Any) -> Any:
     return v
 
 
-def project_case(case: Any, op: dict, method: str, exempt: bool = False) -> dict:
+def project_case(case: Any, op: dict, method: str, exempt: bool = False, given: dict | None = None) -> dict:
     from schemathesis.core import NotSet
     from schemathesis.generation.meta import ComponentKind
 
@@ -259,7 +259,8 @@ def project_case(case: Any, op: dict, method: str, exempt: bool = False) -> dict
     # a duplicated parameter shows as a list; for an array-typed parameter only a list of >= 2 equal entries can be one (benefit of doubt)
     dup = any(isinstance(v, list) and (declared_q.get(k, {}).get("type") != ["array"] or (len(v) >= 2 and all(x == v[0] for x in v)))
               for k, v in q.items())
-    return {"labels": labels, "parts": parts, "alt": alt, "hasBody": has_body,
+    given_keys = {loc: [cps(k) for k in ((given or {}).get(attr) or {})] for loc, attr in CONTAINER.items()}
+    return {"labels": labels, "parts": parts, "alt": alt, "hasBody": has_body, "given": given_keys,
             "body": encode_value(case.body, mults) if has_body else {"t": "absent"},
             "media": case.media_type or "", "dup": dup, "method": str(case.method).upper(), "exempt": exempt}
 
